@@ -153,7 +153,8 @@ class _ParkingExecutor(_CFExecutor):
     def __init__(self, ctl):
         self._ctl = ctl
 
-    def submit(self, fn, *args, **kwargs):
+    def submit(self, fn, /, *args, **kwargs):   # positional-only like ThreadPoolExecutor.submit:
+        # resolver keyword arguments may be called `fn` or `self`
         return self._ctl._park(self._ctl.label_of(fn, args, kwargs), fn, args, kwargs)
 
     def shutdown(self, *a, **k):
@@ -193,7 +194,7 @@ class PoolController(_Base):
             self.complete(label)  # the worker was faster than the submitting thread
         return fut
 
-    def defer(self, label, fn, *args, **kwargs):
+    def defer(self, label, fn, /, *args, **kwargs):
         return self._park(label, fn, args, kwargs)
 
     # -- driving
@@ -291,7 +292,7 @@ class _LoopParkingExecutor(ThreadPoolExecutor):
     def __init__(self, ctl):  # noqa: deliberately no super().__init__
         self._ctl = ctl
 
-    def submit(self, fn, *args, **kwargs):
+    def submit(self, fn, /, *args, **kwargs):
         return self._ctl._park_call(fn, args, kwargs)
 
     def shutdown(self, *a, **k):
